@@ -98,6 +98,10 @@ parts:
 		if dq == nil || len(dq.Parts) != 1 {
 			break
 		}
+		if dq.Dollar {
+			// $'...' gives backslashes a meaning which $"..." does not.
+			break
+		}
 		lit, _ := dq.Parts[0].(*Lit)
 		if lit == nil {
 			break
